@@ -81,13 +81,17 @@ class Ctx:
             inherited = bool(last is not None and last[2] == 'IN' and last[3] == nid and not last[6])
             return (c, inherited)
 
-        if kind == 'sync':
+        if kind in ('sync', 'sync_block'):
             def sink(x):
                 k = state['k']
                 state['k'] += 1
                 c = cause()
                 log.add('CALLED', nid, x, k, c)
                 log.add('START', nid, x, k, c)
+                if kind == 'sync_block':
+                    # a plain function that takes its time ON the loop thread (time.sleep, a computation): the clock moves
+                    # on while no callback and no timer of the loop can run
+                    env.loop._vt += self._svc(spec, k)
                 if k in fail:
                     log.add('FAILED', nid, x, k, c)
                     raise F.InjectedFault((nid, k))
